@@ -14,7 +14,17 @@ Mirrors, path by path,
 * `bitfield/comparison.hpp`    : `==` on the arrays, `!=` its negation
 * `bitfield/is_subset_eq.hpp`  : `(l & r) == l`
 * `bitfield/init.hpp`          : `null`, then `set(e, f e)` for every enumerator in order
-* `bitfield/hash_impl.hpp`     : `range::hash` = left fold of `hash_combine` over the words
+* `bitfield/hash_impl.hpp`     : `range::hash` = left fold of `hash_combine` over the words;
+                                 `hashCombine64` / `hash64` is the concrete instance of this tree
+                                 (`fcppt/hash_combine.hpp` on a 64-bit `std::size_t`, libstdc++'s
+                                 identity `std::hash` of an unsigned integer)
+* `bitfield/object_impl.hpp`   : `object(array_type const&)` / `array()` (`ofArray`, `poke`: the object *is*
+                                 its array, no normalisation), `operator[]` returning a proxy `(array, pos)`
+* `bitfield/proxy_impl.hpp`    : defaulted proxy copy-assignment *rebinds* the proxy (`Proxy.assignProxy`)
+* `bitfield/operators.hpp`     : `operator|=(field, index)` / `operator|(field, index)` = `set index true`,
+                                 `operator&(field, index)` = `get`
+* `bitfield/underlying_value.hpp` : word 0 of a one-word bitfield (`enable_if array_size == 1`)
+* `bitfield/output.hpp`        : `{name,name,...}` over `enum_::make_range` with the `is_first` flag
 
 A storage word of the C++ type (unsigned, `w` value bits) is a `BitVec w`; `n` is the number
 of enumerators (`fcppt::enum_::size`), an enumerator is its index `i < n`.
@@ -32,10 +42,13 @@ def null (n w : Nat) : Words w := List.replicate (nwords n w) 0#w
 /-- `proxy::bit_mask (bit_offset pos)` = `shifted_mask`: `1 << (pos % w)` -/
 def mask (w pos : Nat) : BitVec w := 1#w <<< (pos % w)
 
+/-- `fcppt::bit::test(value, mask)`: `(value & mask.get()) != 0` -/
+def bitTest {w : Nat} (x m : BitVec w) : Bool := (x &&& m) != 0#w
+
 /-- `proxy::operator bool`: `bit::test(array[pos / w], mask)` -/
 def get {w : Nat} (a : Words w) (i : Nat) : Bool :=
   match a[i / w]? with
-  | some x => (x &&& mask w i) != 0#w
+  | some x => bitTest x (mask w i)
   | none => false          -- unreachable for i < n on well-formed arrays (see `get_lt`)
 
 /-- `proxy::operator=(bool)` -/
@@ -77,5 +90,61 @@ def hash {w : Nat} (hc : Nat → Nat → Nat) (hw : BitVec w → Nat) (a : Words
 
 /-- the set denoted by a bitfield, as the list of its members (what iterating `get` observes) -/
 def members {w : Nat} (n : Nat) (a : Words w) : List Nat := (List.range n).filter (get a)
+
+/-! ## raw array access, proxies, index operators, `underlying_value`, output, concrete hash -/
+
+/-- `explicit object(array_type const &)`: the array is stored as given (padding bits included). -/
+def ofArray {w : Nat} (ws : Words w) : Words w := ws
+
+/-- `array()` (const and mutable): the stored words. -/
+def array {w : Nat} (a : Words w) : Words w := a
+
+/-- write-through the mutable `array()` accessor: `*(bf.array().begin() + k) = x` -/
+def poke {w : Nat} (a : Words w) (k : Nat) (x : BitVec w) : Words w := a.set k x
+
+/-- `operator|=(field, index)` and `operator|(field, index)`: `set(index, true)` -/
+def orIdx {w : Nat} (a : Words w) (i : Nat) : Words w := set a i true
+
+/-- `operator&(field, index)`: `get(index)` -/
+def testIdx {w : Nat} (a : Words w) (i : Nat) : Bool := get a i
+
+/-- `proxy`: a reference to the array (implicit: the array the functions below are applied to)
+    and a position. -/
+structure Proxy where
+  pos : Nat
+  deriving Repr, DecidableEq
+
+/-- `object::operator[]` -/
+def Proxy.mk' (i : Nat) : Proxy := ⟨i⟩
+/-- `proxy &operator=(proxy const &) = default`: copies reference and position, i.e. *rebinds*;
+    no bit is written. -/
+def Proxy.assignProxy (_p q : Proxy) : Proxy := q
+/-- `proxy &operator=(value_type)` -/
+def Proxy.assignBool {w : Nat} (a : Words w) (p : Proxy) (v : Bool) : Words w := set a p.pos v
+/-- `operator value_type() const` -/
+def Proxy.toBool {w : Nat} (a : Words w) (p : Proxy) : Bool := get a p.pos
+
+/-- `underlying_value`: only callable when the array has exactly one word (SFINAE in C++). -/
+def underlyingValue {w : Nat} (a : Words w) : Option (BitVec w) :=
+  match a with
+  | [x] => some x
+  | _ => none
+
+/-- `operator<<`: the sequence of strings written to the stream: `{`, then for every enumerator
+    in order that is set: a `,` unless first, then the name; finally `}`. -/
+def output {w : Nat} (name : Nat → String) (n : Nat) (a : Words w) : List String :=
+  let st := (List.range n).foldl
+    (fun (st : List String × Bool) e =>
+      if get a e then ((if st.2 then st.1 else st.1 ++ [","]) ++ [name e], false) else st)
+    (["{"], true)
+  st.1 ++ ["}"]
+
+/-- `fcppt::hash_combine` on a 64-bit `std::size_t`. -/
+def hashCombine64 (old new : UInt64) : UInt64 :=
+  old ^^^ (new + (0x9e3779b9 : UInt64) + (old <<< (6 : UInt64)) + (old >>> (2 : UInt64)))
+
+/-- `bitfield::hash` on this tree: `std::hash` of an unsigned word is its value (libstdc++). -/
+def hash64 {w : Nat} (a : Words w) : Nat :=
+  hash (fun st h => (hashCombine64 (UInt64.ofNat st) (UInt64.ofNat h)).toNat) (fun x => x.toNat) a
 
 end Fcppt.C10
